@@ -94,8 +94,10 @@ def boot(config_id="default"):
             raise RuntimeError(f"configuration seam failed for {k}")
     from adcgen.misc import Singleton
     from adcgen.indices import Indices
-    if Indices in Singleton._instances:
-        raise RuntimeError("index registry not pristine after import")
+    # white-box sanity check, skipped when the metaclass keeps its instances elsewhere
+    for attr, val in list(vars(Singleton).items()):
+        if isinstance(val, dict) and Indices in val:
+            raise RuntimeError("index registry not pristine after import")
     _state.update(booted=True, config_id=config_id, names=names)
     return adcgen
 
